@@ -595,7 +595,8 @@ def prepare(cases, nemb):
             if src[0] in ("ring-star", "one-net") and src[1][0] == 1:
                 continue
         c = dict(c)
-        c["nemb"] = nemb
+        # the populous / expensive families take two embeddings per object even in thorough
+        c["nemb"] = min(nemb, 2) if c["prod"] in ("die", "alloc", "rect_netlist", "legal") else nemb
         c["embs"] = embeddings_for(c, k)
         out.append(c)
     return out
@@ -621,7 +622,8 @@ def run(ctx: Ctx) -> int:
     ctx.extra["embeddings"] = ALL
     ctx.extra["cases"] = {"tlc": len(printed), "total": len(cases)}
     ctx.assumptions += [
-        "float dimension sampled by the embeddings of harness/lattice.py: every TLC-emitted object under 2 (quick) or 3 (thorough) of them, "
+        "float dimension sampled by the embeddings of harness/lattice.py: every TLC-emitted object under 2 (quick) or 3 (thorough; 2 for dies, "
+        "allocations, rect_netlist and the legaliser) of them, "
         "rotating so that all are used (dies and FloorSet instances: origin-0 embeddings; legaliser: those of C09; the generator has no coordinates)",
         "observed numbers are compared in 1/1000 lattice units (1/1000 for ratios and weights); centroids and areas within one such unit",
         "the reader runs as in a fresh process (Rectangle tolerances undefined before every load)",
